@@ -375,7 +375,7 @@ Attribution(r) ==
 \* (objects whose authority was parsed EAGERLY by the constructor may differ for an empty host: Dev_EmptyHost)
 AccessorDrift(o) ==
   IF ~("val" \in DOMAIN o /\ Ok(o.val)) \/ Len(Path5(o)) + Len(Query5(o)) + Len(Netloc5(o)) + Len(Frag5(o)) > 300 THEN {}
-  ELSE LET u5 == Five(o) IN {f \in AccessorNames \cap DOMAIN o : o[f] # AccM(f, u5)}
+  ELSE LET u5 == Five(o) IN {f \in AccessorNames \cap DOMAIN o : ~IsGray(AccM(f, u5)) /\ o[f] # AccM(f, u5)}
 
 \* human_repr() against Level I (records that carry the printable set: C18)
 HumanAgreement(r) ==
